@@ -1,6 +1,7 @@
 package props
 
 import (
+	"bytes"
 	"encoding/json"
 	"fmt"
 	"os"
@@ -292,6 +293,22 @@ func ReplDocs(maxN int, f func(unit, sep string, n int, doc []byte)) int {
 	return cnt
 }
 
+// sizeLadder returns, in increasing order, every n in 1..dense followed by 2^k-1, 2^k, 2^k+1 up to limit.
+func sizeLadder(dense, limit int) []int {
+	var out []int
+	for n := 1; n <= dense; n++ {
+		out = append(out, n)
+	}
+	for p := 1; p <= limit; p <<= 1 {
+		for _, n := range []int{p - 1, p, p + 1} {
+			if n > dense && n <= limit+1 {
+				out = append(out, n)
+			}
+		}
+	}
+	return out
+}
+
 // replSub runs fn on every replication document under cfg as one sub-check.
 func replSub(r *core.Run, name string, cfg core.Cfg, maxN int, fn func(s *core.Sub, cv *core.Conv, w []byte)) {
 	type job struct{ u, sep string }
@@ -301,15 +318,18 @@ func replSub(r *core.Run, name string, cfg core.Cfg, maxN int, fn func(s *core.S
 			jobs = append(jobs, job{u, sep})
 		}
 	}
-	s := r.Sub(name, fmt.Sprintf("every document (unit sep)^n for unit in %q, sep in {LF, LF LF} and EVERY n from 1 to %d (so that any internal threshold is crossed at every phase), under %s", replUnits, maxN, cfg))
-	s.Planned = int64(len(jobs) * maxN)
+	s := r.Sub(name, fmt.Sprintf("every document (unit sep)^n for unit in %q, sep in {LF, LF LF} and EVERY n from 1 to %d (so that any internal threshold is crossed at every phase), then n = 2^k-1, 2^k, 2^k+1 up to %d, under %s", replUnits, maxN, core.Pick(r, 1024, 16384), cfg))
+	s.Planned = int64(len(jobs) * len(sizeLadder(maxN, core.Pick(r, 1024, 16384))))
 	s.Bound = fmt.Sprintf("%d units × 2 separators × n=1..%d", len(replUnits), maxN)
 	complete := core.ForEachIndex(len(jobs), core.Workers(), func(w int) func(int) {
 		cv := core.NewConv(cfg)
 		return func(i int) {
 			var doc []byte
-			for n := 1; n <= maxN; n++ {
-				doc = append(append(doc, jobs[i].u...), jobs[i].sep...)
+			have := 0
+			for _, n := range sizeLadder(maxN, core.Pick(r, 1024, 16384)) {
+				for ; have < n; have++ {
+					doc = append(append(doc, jobs[i].u...), jobs[i].sep...)
+				}
 				fn(s, cv, doc)
 				s.Evals.Add(1)
 			}
@@ -338,17 +358,18 @@ func lengthSub(r *core.Run, name string, cfg core.Cfg, maxLen int, fn func(s *co
 		}
 	}
 	units := []string{"a", "ab ", "[", "*a", "\\"}
-	s := r.Sub(name, fmt.Sprintf("each of %d sink templates with § replaced by the first L bytes of the endless repetition of each unit in %q, for EVERY L from 1 to %d, under %s", len(ctxs), units, maxLen, cfg))
-	s.Planned = int64(len(ctxs) * len(units) * maxLen)
+	s := r.Sub(name, fmt.Sprintf("each of %d sink templates with § replaced by the first L bytes of the endless repetition of each unit in %q, for EVERY L from 1 to %d and then L = 2^k-1, 2^k, 2^k+1 up to %d, under %s", len(ctxs), units, maxLen, core.Pick(r, 8192, 70000), cfg))
+	s.Planned = int64(len(ctxs) * len(units) * len(sizeLadder(maxLen, core.Pick(r, 8192, 70000))))
 	s.Bound = fmt.Sprintf("%d templates × %d units × L=1..%d", len(ctxs), len(units), maxLen)
 	complete := core.ForEachIndex(len(ctxs)*len(units), core.Workers(), func(w int) func(int) {
 		cv := core.NewConv(cfg)
 		return func(i int) {
 			c, u := ctxs[i/len(units)], units[i%len(units)]
 			parts := strings.Split(c.tmpl, "§")
-			payload := strings.Repeat(u, maxLen/len(u)+1)
+			top := core.Pick(r, 8192, 70000)
+			payload := strings.Repeat(u, (top+2)/len(u)+1)
 			var doc []byte
-			for l := 1; l <= maxLen; l++ {
+			for _, l := range sizeLadder(maxLen, top) {
 				doc = doc[:0]
 				for k, p := range parts {
 					if k > 0 {
@@ -371,4 +392,49 @@ func lengthSub(r *core.Run, name string, cfg core.Cfg, maxLen int, fn func(s *co
 	s.States.Store(s.Evals.Load())
 	s.Transitions.Store(s.Evals.Load())
 	s.Done()
+}
+
+// attribute entries: sequences of complete attribute entries (the second and later entries meet the merge paths)
+var attrEntries = []string{".b", "#i", "class=a", "class=\"c d\"", "class='e'", "id=x", "k=v", "k=1", "k=true", "k=[1,\"x\"]", "data-x=y", ".f", "title=t", "id=\"y z\"", "class=g"}
+
+func attrEntrySub(r *core.Run, name string, cfg core.Cfg, n int, fn func(s *core.Sub, cv *core.Conv, w []byte)) {
+	toks := make([]string, len(attrEntries))
+	for i, e := range attrEntries {
+		toks[i] = e + " "
+	}
+	tmpls := [][2]string{{"# Title {", "}"}, {"Title {", "}\n==="}, {"## Title text that is long enough {", "}"}}
+	wordsSub(r, name, fmt.Sprintf("every sequence of ≤%d attribute entries from %q, separated by spaces, in the attribute block of an ATX and a Setext heading under %s", n, attrEntries, cfg),
+		toks, n, func(s *core.Sub, w int) func([]byte) uint64 {
+			cv := core.NewConv(cfg)
+			var doc []byte
+			return func(word []byte) uint64 {
+				for _, t := range tmpls {
+					doc = append(append(append(doc[:0], t[0]...), bytes.TrimRight(word, " ")...), t[1]...)
+					fn(s, cv, doc)
+					s.Evals.Add(1)
+				}
+				return core.Hash(word)
+			}
+		})
+}
+
+// hashTwins returns, for a name, the strings of the same length that have the same multiplicative-by-33 string hash
+// (djb2 and friends): raising one byte by d and lowering the next by 33·d keeps h = h*33 + c unchanged. Only twins made of
+// attribute-name characters are returned.
+func hashTwins(name string) []string {
+	ok := func(c int) bool {
+		return c >= 'a' && c <= 'z' || c >= 'A' && c <= 'Z' || c >= '0' && c <= '9' || c == '-' || c == '_'
+	}
+	var out []string
+	for i := 0; i+1 < len(name); i++ {
+		for _, d := range []int{1, -1, 2, -2} {
+			a, b := int(name[i])+d, int(name[i+1])-33*d
+			if ok(a) && ok(b) && !(i == 0 && !(a >= 'a' && a <= 'z' || a >= 'A' && a <= 'Z')) {
+				t := []byte(name)
+				t[i], t[i+1] = byte(a), byte(b)
+				out = append(out, string(t))
+			}
+		}
+	}
+	return out
 }
